@@ -3,4 +3,6 @@ EXTENDS Gen, MC_chain
 mcScriptCrash == << <<"build", "">>, <<"edit", "s", "S1">>, <<"build", "">> >>
 mcScriptCrash2 == << <<"build", "">>, <<"clean", "">>, <<"build", "">> >>
 mcScriptCrash0 == << <<"build", "">> >>
+mcScriptDrop == << <<"rules", 3>>, <<"build", "">>, <<"rules", 1>>, <<"clean", "">>, <<"build", "">> >>
+mcScriptDrop2 == << <<"rules", 3>>, <<"build", "">>, <<"rules", 1>>, <<"build", "q">>, <<"clean", "q">>, <<"build", "">> >>
 ====
